@@ -9,6 +9,9 @@
 #include <stdint.h>
 #include <stdatomic.h>
 #include <unistd.h>
+#include <sys/mman.h>
+#include <signal.h>
+#include <errno.h>
 static uint64_t rs; static uint64_t rnd(void){ rs += 0x9E3779B97F4A7C15ull; uint64_t z=rs; z=(z^(z>>30))*0xBF58476D1CE4E5B9ull; z=(z^(z>>27))*0x94D049BB133111EBull; return z^(z>>31); }
 #define MAXL 64
 #define MAXO 256
@@ -30,6 +33,27 @@ static void verify(struct obj *o){ // bytes through the public API must be the t
   __block size_t pos=0; __block int bad=0;
   dispatch_data_apply(o->d, ^bool(dispatch_data_t r, size_t off, const void *b, size_t len){ (void)r; if(off!=pos||pos+len>n||memcmp(b,exp+pos,len)) bad=1; pos+=len; return true; });
   if(bad||pos!=n) fail("bytes/tiling mismatch",(int)pos,(int)n); free(exp); }
+// the predefined destructors of dispatch/data.h: DISPATCH_DATA_DESTRUCTOR_FREE (buffer from malloc) and
+// DISPATCH_DATA_DESTRUCTOR_MUNMAP (buffer from mmap): the buffer stays intact while anything derived from it lives and is
+// given back (the mapping is gone) once everything has been released
+static uint64_t pd_seed;
+static void pd_crash(int sig){ char b[200]; int n=snprintf(b,sizeof b,"VIOL seed=%llu the library crashed (signal %d) while releasing a buffer created with a predefined destructor (DISPATCH_DATA_DESTRUCTOR_MUNMAP / FREE)\n",(unsigned long long)pd_seed,sig); if(n>0) (void)!write(1,b,(size_t)n); _exit(1); }
+static int mapped(void *p, size_t n){ return msync(p,n,MS_ASYNC)==0 || errno!=ENOMEM; }
+static void predefined(int rounds){ signal(SIGILL,pd_crash); signal(SIGSEGV,pd_crash); signal(SIGABRT,pd_crash); long pg=sysconf(_SC_PAGESIZE);
+  for(int r=0;r<rounds && !viol;r++){ int kind=(int)(rnd()%2); size_t n = kind? (size_t)pg*(1+rnd()%3) : 1+rnd()%4000; unsigned char *b;
+    if(kind){ b=mmap(NULL,n,PROT_READ|PROT_WRITE,MAP_PRIVATE|MAP_ANONYMOUS,-1,0); if(b==MAP_FAILED) return; } else b=malloc(n);
+    for(size_t i=0;i<n;i++) b[i]=(unsigned char)(i*7+r);
+    dispatch_data_t d=dispatch_data_create(b,n,NULL, kind?DISPATCH_DATA_DESTRUCTOR_MUNMAP:DISPATCH_DATA_DESTRUCTOR_FREE);
+    size_t off=rnd()%n, len=1+rnd()%(n-off); dispatch_data_t sub=dispatch_data_create_subrange(d,off,len); dispatch_data_t cat=dispatch_data_create_concat(sub,d);
+    if(rnd()%2){ dispatch_release(d); dispatch_release(cat); } else { dispatch_release(cat); dispatch_release(d); }
+    usleep(500);
+    // only `sub` is left: its bytes are the buffer's
+    if(kind && !mapped(b,n)) fail("a buffer with DISPATCH_DATA_DESTRUCTOR_MUNMAP was unmapped while an object derived from it is alive: round",r,0);
+    __block int bad=0; dispatch_data_apply(sub,^bool(dispatch_data_t rg, size_t o, const void *p, size_t sz){ (void)rg; for(size_t i=0;i<sz;i++) if(((const unsigned char*)p)[i]!=(unsigned char)((off+o+i)*7+r)) bad=1; return true; });
+    if(bad) fail("bytes of a buffer with a predefined destructor changed while a derived object is alive: round/kind",r,kind);
+    dispatch_release(sub);
+    if(kind){ int gone=0; for(int w=0; w<2000 && !gone; w++){ if(!mapped(b,n)) gone=1; else usleep(500); }
+      if(!gone) fail("a buffer with DISPATCH_DATA_DESTRUCTOR_MUNMAP was still mapped 1 s after everything derived from it had been released: round",r,0); } } }
 int main(int argc,char**argv){ uint64_t seed=argc>1?strtoull(argv[1],0,0):1; int rounds=argc>2?atoi(argv[2]):50; long ops=0, maxdepth=0;
   dispatch_queue_t dq = dispatch_queue_create("destructors", NULL);
   for(int r=0;r<rounds && !viol;r++){ rs=seed*1000003+r; nobj=0; nleaf=0; memset(destroyed,0,sizeof destroyed);
@@ -56,5 +80,6 @@ int main(int argc,char**argv){ uint64_t seed=argc>1?strtoull(argv[1],0,0):1; int
     for(int i=0;i<nobj;i++){ while(O[i].refs>0){ O[i].refs--; dispatch_release(O[i].d); } }
     dispatch_sync(dq, ^{}); for(int t=0;t<200;t++){ int all=1; for(int l=0;l<nleaf;l++) if(!destroyed[l]) all=0; if(all) break; dispatch_sync(dq, ^{}); usleep(1000); }
     for(int l=0;l<nleaf;l++) if(destroyed[l]!=1) fail("destructor count != 1 after all releases: leaf/count",l,destroyed[l]); }
+  if(!viol){ pd_seed=seed; rs=seed*77+5; predefined(rounds); }
   if(viol){ printf("VIOL seed=%llu %s\n",(unsigned long long)seed,vmsg); return 1; }
   printf("ok rounds=%d ops=%ld maxlive=%ld\n",rounds,ops,maxdepth); return 0; }
